@@ -370,7 +370,7 @@ class IntEval:
                     return self.p.settings[e.id]
                 if e.id == "circle_of_fifths_order" and env.get("__class_body__"):
                     return [("Note", v) for v in self.cof]
-                raise AnalysisError(f"value-set evaluator: unknown name {e.id}")
+                return ("NAME-ERROR", e.id)     # the program itself would raise NameError / UnboundLocalError here
             return env[e.id]
         if isinstance(e, ast.List):
             return [self.ev(x, env) for x in e.elts]
@@ -388,6 +388,8 @@ class IntEval:
             return out
         if isinstance(e, ast.UnaryOp):
             v = self.ev(e.operand, env)
+            if isinstance(v, tuple) and v and isinstance(v[0], str) and v[0].endswith("-ERROR"):
+                return v
             return -v if isinstance(e.op, ast.USub) else (not v if isinstance(e.op, ast.Not) else +v)
         if isinstance(e, ast.BinOp):
             a, b = self.ev(e.left, env), self.ev(e.right, env)
@@ -403,8 +405,12 @@ class IntEval:
             raise AnalysisError(f"value-set evaluator: unsupported operator in `{short(e)}`")
         if isinstance(e, ast.Compare):
             l = self.ev(e.left, env)
+            if isinstance(l, tuple) and l and isinstance(l[0], str) and l[0].endswith("-ERROR"):
+                raise IntEval._Return(l)
             for op, c in zip(e.ops, e.comparators):
                 r = self.ev(c, env)
+                if isinstance(r, tuple) and r and isinstance(r[0], str) and r[0].endswith("-ERROR"):
+                    raise IntEval._Return(r)
                 if isinstance(op, (ast.In, ast.NotIn)):
                     ok = (l in r) if isinstance(op, ast.In) else (l not in r)
                 elif isinstance(op, (ast.Eq, ast.NotEq)):
